@@ -60,6 +60,53 @@ def scan(prop='C07'):
     return [f for f in _scan() if prop in RULE_PROPS.get(f['rule'], ('C07',)) or f['rule'] == 'missing-file']
 
 
+# ---- whitelist of call names ---------------------------------------------------------------------
+# The rules above are a blacklist.  To keep "nothing else influences the output" from resting on a list of
+# things we happened to think of, every method / path / macro call name used by the library is compared
+# with the vetted list lib/purity_calls.txt (the names used at the pinned commit, each a deterministic
+# function of its arguments' logical value - or covered by a rule above).  A name that is not on the list
+# is NOT a violation: it makes the C07/C08 verdict undecided (`soft`), and the two-process / reused-generator
+# stand-in decides.
+CALLS_FILE = os.path.join(os.path.dirname(os.path.abspath(__file__)), 'purity_calls.txt')
+
+
+def call_names(src):
+    m = re.search(r'(?m)^#\[cfg\(test\)\]', src)
+    if m:
+        src = src[:m.start()]
+    masked = rsx.mask(src)
+    out = []
+    for mm in re.finditer(r'\.\s*([a-z_]\w*)\s*(?:::\s*<[^>]*>\s*)?\(', masked):
+        out.append(('.' + mm.group(1), mm.start()))
+    for mm in re.finditer(r'\b((?:[A-Za-z_]\w*\s*::\s*)+[a-z_]\w*)\s*(?:::\s*<[^>]*>\s*)?\(', masked):
+        out.append((re.sub(r'\s', '', mm.group(1)), mm.start()))
+    for mm in re.finditer(r'\b([a-z_]\w*)!\s*[\(\[\{]', masked):
+        out.append((mm.group(1) + '!', mm.start()))
+    return [(n, src.count('\n', 0, pos) + 1) for n, pos in out]
+
+
+def unvetted_calls():
+    vetted = set(l.strip() for l in open(CALLS_FILE) if l.strip() and not l.startswith('#'))
+    # functions defined in the library itself are covered by their own bodies
+    defined = set()
+    srcs = {}
+    for rel in LIB_FILES:
+        path = os.path.join(REPO, rel)
+        if os.path.exists(path):
+            srcs[rel] = open(path, encoding='utf-8').read()
+            for mm in re.finditer(r'\bfn\s+(\w+)', rsx.mask(srcs[rel])):
+                defined.add(mm.group(1))
+    res = []
+    for rel, src in srcs.items():
+        for n, line in call_names(src):
+            base = n.lstrip('.').split('::')[-1].rstrip('!')
+            if n in vetted or (not n.endswith('!') and base in defined):
+                continue
+            res.append(dict(file=rel, line=line, rule='unvetted-call', text=n, allowed=False, soft=True,
+                            reason='call name not on the vetted list (lib/purity_calls.txt): determinism not established by the scan'))
+    return res
+
+
 def _scan():
     findings = []
     for rel in LIB_FILES:
